@@ -9,7 +9,7 @@
 //! positions) 3 points gave no answer in 10 min; hence one harness per shape.
 //!
 //! @funcs glyf::SimpleGlyph::read_dep, SimpleGlyphFlag::{is_repeated, x_is_short, y_is_short, x_short_sign, y_short_sign, x_is_same_or_positive, y_is_same_or_positive, is_on_curve}, BoundingBox::read
-//! @out glyphs of more than 1 point (2 and 3 points with a concrete stream layout: no answer in 10 min per shape; the oracle is not the cost), and in the quick tier every shape but one: a single point with short vectors or words on BOTH axes also runs past 10 min (thorough tier, no answer recorded), while x = same / y = short with a REPEAT flag of count 0 takes 15 s or more than one contour, REPEAT counts above 1, instructions, hostile glyph descriptions (repeat runs that overshoot the point count, coordinate sums beyond 16 bits)
+//! @out glyphs of more than 1 point (2 and 3 points with a concrete stream layout: no answer in 10 min per shape; the oracle is not the cost), and in the quick tier every shape but one: a single point with short vectors or words on BOTH axes runs CBMC out of its 10 GB cap in 150 s even with the unwinding bound at its minimum of 3 (thorough tier, 16 GB, no answer recorded); 2 points with unwind(4): out of memory as well, while x = same / y = short with a REPEAT flag of count 0 takes 15 s or more than one contour, REPEAT counts above 1, instructions, hostile glyph descriptions (repeat runs that overshoot the point count, coordinate sums beyond 16 bits)
 
 use crate::util::*;
 use allsorts::binary::read::ReadScope;
@@ -64,20 +64,13 @@ fn deltas(buf: &[u8], at: &mut usize, flags: &[u8; N], kinds: [u8; N], same: u8)
 /// the logical flag that carries REPEAT (N = none) and `count` its repeat byte; the points a
 /// repeated flag covers share its kinds.
 fn packed_points(kinds: [(u8, u8); N], repeat_at: usize, count: u8) {
-    let mut buf = [0u8; HDR + STREAM];
-    let bbox: [u8; 8] = kani::any();
-    let stream: [u8; STREAM] = kani::any();
-    let mut i = 0;
-    while i < 8 {
-        buf[i] = bbox[i];
-        i += 1;
-    }
+    // no copy loops here: the unwinding bound of the harness is also applied to every loop of
+    // read_dep (Vec growth paths included), so it has to stay at N + 2
+    let mut buf: [u8; HDR + STREAM] = kani::any();
+    let bbox = [buf[0], buf[1], buf[2], buf[3], buf[4], buf[5], buf[6], buf[7]];
     put16(&mut buf, 8, (N - 1) as u16); // endPtsOfContours[0]
-    i = 0;
-    while i < STREAM {
-        buf[HDR + i] = stream[i];
-        i += 1;
-    }
+    put16(&mut buf, 10, 0); // instructionLength
+    let mut i;
     // write the flag bytes, expanding them as the specification describes
     let mut flags = [0u8; N];
     let mut at = HDR;
@@ -145,7 +138,7 @@ fn packed_points(kinds: [(u8, u8); N], repeat_at: usize, count: u8) {
 // @tier thorough
 // @bound one contour of 1 point, no instructions, both deltas short vectors; sign bits, on-curve bit and data bytes symbolic
 #[kani::proof]
-#[kani::unwind(12)]
+#[kani::unwind(3)]
 fn c16_packed_point_short_vectors() {
     packed_points([(SHORT, SHORT); N], N, 0);
 }
@@ -154,7 +147,7 @@ fn c16_packed_point_short_vectors() {
 // @tier thorough
 // @bound as above with 16-bit word deltas
 #[kani::proof]
-#[kani::unwind(12)]
+#[kani::unwind(3)]
 fn c16_packed_point_words() {
     packed_points([(WORD, WORD); N], N, 0);
 }
@@ -162,7 +155,7 @@ fn c16_packed_point_words() {
 /// "Same as previous" on x (delta 0), short y; REPEAT with a zero count is the flag alone.
 // @bound as above with x = same, y = short vector, the flag carrying REPEAT with count 0
 #[kani::proof]
-#[kani::unwind(12)]
+#[kani::unwind(3)]
 fn c16_packed_point_same_and_repeat_zero() {
     packed_points([(SAME, SHORT); N], 0, 0);
 }
